@@ -3,7 +3,9 @@ Layer B of C01/C13/C09, part 1: the capability strings of the draw path in their
 
 * `XtermLike ti` — decidable class of terminal descriptions whose draw-path capabilities are, once TPuts has removed
   their padding (`tp_strip`), one of a few standard ECMA-48 forms — or absent where the library tolerates it;
-  `Tcell.Props.C01B.db_layerB` lists the entries of the regenerated database in the class (41 of 49).
+  `Tcell.Props.C01B.db_layerB` lists the entries of the regenerated database in the class (41 of 49);
+  `CornerLike ti` — the sister class of the terminals on which drawCell uses the bottom-right insert-character trick (the same
+  strings `CapsOk`, `ich1` = ICH; `db_cornerLike`: the other four ECMA-48 entries beterm, cygwin, sun, sun-color).
 * closed forms of the TParm expansions of the parameterised strings of the class, for ALL parameter values
   (`parm_cup`, `parm_cup_pad`, `parm_setaf256`, `parm_setab256`, `parm_setfgbg256`, `parm_setafBasic`, `parm_setafAdd`,
   `parm_setafExt`, `parm_setafColon`, …, `parm_rgb…`, `parm_ul…`),
